@@ -20,7 +20,7 @@ RULE = ("files: standard V/W/C header (+ optional ~P/~O before ~A) and a data se
         "signed, .5, 5.}, separators {blanks, tabs, mixed}, leading/trailing padding, blank/#-comment lines at any "
         "position with density 0..50%, NULL-equal cells. distinct = distinct (row class, column class, trailing kind, "
         "placement, eol, final newline, spelling set, noise class) among comparisons whose numpy read took the fast "
-        "path; non-trivial = such a comparison with r*c >= 2 or noise lines or a following section Added later: DLM TAB with runs of tabs, WRAP NO in other spellings, declared curves fewer / more than the columns.")
+        "path; non-trivial = such a comparison with r*c >= 2 or noise lines or a following section Added later: DLM TAB with runs of tabs, WRAP NO in other spellings, declared curves fewer / more than the columns. Round 8: one header line of 1000..70000 characters ahead of the data section.")
 ASSUMPTIONS = [
     "unwrapped files (WRAP NO in several spellings: No, no, N, FALSE ...), DLM absent or TAB, default read/null policies; tokens are plain decimal numbers so that both engines are in their domain; declared curves may be fewer or more than the data columns",
     "bit identity is demanded because the statement demands it; -0.0 tokens are generated and compared by bit pattern too",
@@ -94,6 +94,11 @@ def grid(tier):
                                "eol": eol, "final": fin, "before": [], "noise": {}, "sep": " ", "lead": " ", "trailpad": ""}
     for case in _grid_tab():
         yield case
+    for n in (1000, 1023, 1024, 1025, 1100, 2100, 4096, 8193, 70000):        # absolute line lengths around the usual buffer sizes
+        for r, c in ((1, 2), (3, 3), (4, 1), (6, 5)):
+            for after in ("last", "P"):
+                yield {"rows": [[cell(i, j) for j in range(c)] for i in range(r)], "trail": "none", "after": after, "eol": "\n", "final": True,
+                       "before": [], "noise": {}, "sep": " ", "lead": " ", "trailpad": "", "long_header_line": n}
     # the WRAP item of an unwrapped file in other spellings, and more / fewer columns than declared curves
     for spell in ("NO", "No", "no", "N", "FALSE", "n/a"):
         for delta in (0, -1, 1, 2):
@@ -173,6 +178,12 @@ def build_text(case):
     c = len(rows[0])
     secs = lastext.std_header(max(0, c + case.get("declared_delta", 0)), dlm=case.get("dlm"), wrap=case.get("wrapspell", "NO"))
     secs += after_sections(case.get("before", []))
+    if case.get("long_header_line"):
+        # one very long physical line in the header (a long company name / remark): the fast engine addresses the data by line NUMBERS
+        n = case["long_header_line"]
+        for sct in secs:
+            if sct["kind"] == "W":
+                sct["items"].append(["RMK", "", "r" * n, "a remark of %d characters" % n])
     noise = dict(case.get("noise", {}))
     if TRAILING[case["trail"]]:
         noise["end"] = TRAILING[case["trail"]]
